@@ -6,13 +6,23 @@ for l in open('/verif/properties.jsonl'):
     p=json.loads(l)
     if p['id']==pid: prop=p
 txt=json.dumps(prop,indent=1,ensure_ascii=False)
+import glob,os
+avoid=[]
+for d in sorted(glob.glob('/verif/seeded/%s-*'%pid)):
+    f=os.path.join(d,'agent_note.md')
+    if os.path.exists(f):
+        t=open(f).readline().strip().lstrip('# ').strip()
+        if t: avoid.append(t)
+avoid_txt=""
+if avoid and os.environ.get("SEED_AVOID","1")=="1":
+    avoid_txt="\n\nOther people already produced the following changes for this property; do NOT repeat these ideas or touch the same functions - find different mechanisms and different places:\n"+"\n".join("  - "+a for a in avoid)+"\n"
 print(f"""You are given a scratch git worktree of the Go project wader/fq (a jq-like CLI and Go library with bit-level decoders for ~130 binary formats) at {wt}. Work ONLY inside {wt} and write your deliverables to {out} (create it). Do not read or write /repo or /verif or any other worktree under /tmp; do not use git commit/stash in ways that affect other worktrees (plain `git diff`, `git checkout -- <file>` inside your worktree are fine). The machine is offline; every shell call that runs go needs:
   export GOFLAGS=-mod=mod GOPROXY=off GOSUMDB=off GOTOOLCHAIN=local GOCACHE=/tmp/seedcache/go-build
 (the environment does not persist between shell calls).
 
 Here is a semantic property of fq that users rely on (JSON; "anchors" point at the code that implements it):
 
-{txt}
+{txt}{avoid_txt}
 
 YOUR TASK: produce {n} independent, realistic changes to fq's source code (non-test .go / .jq files of fq itself; never edit tests, testdata or goldens) such that EACH change, applied alone to HEAD:
   1. still compiles (`go build ./...`),
